@@ -622,19 +622,32 @@ def stage_crop_meta(ctx):
         im, meta = gen_image(rng)
         upd = [rng.choice([None, 1.0, 1.33]), rng.choice([None, 0.5, 0.75]), rng.choice([None, (1, 0), (0, 1), (3, 4)]),
                rng.choice([None, 0.125])]
+        if rng.random() < 0.35:
+            upd = [None, None, None, None]                     # nothing to update (the usual call inside a fit)
+        dropped = [k_ for k_ in ("medium_index", "illum_wavelen", "illum_polarization", "noise_sd")
+                   if rng.random() < 0.3]
+        for k_ in dropped:                                     # data without some of the standard keys
+            del im.attrs[k_]
+        ctx.count("meta:%s:%s" % ("noargs" if all(u is None for u in upd) else "args",
+                                  "missing-keys" if dropped else "all-keys"))
         before = snap(im)
+        attrs_before = attrs_lit(im.attrs)                     # literal of the input as it was BEFORE the call
         out = update_metadata(im, *upd)
         after = snap(im)
         ctx.explored += 1
         if before != after:
             ctx.violation("purity:update_metadata", "update_metadata modified the image it was given",
-                          dict(kind="purity", op="update_metadata", update=repr(upd), **meta))
+                          dict(kind="purity", op="update_metadata", update=repr(upd), dropped=dropped, **meta))
+        if out is im:
+            ctx.violation("alias:identity:update_metadata", "update_metadata returned its input, not a copy",
+                          dict(kind="purity", op="update_metadata", update=repr(upd), dropped=dropped, **meta))
         ul = [attr_lit(upd[0]), attr_lit(upd[1]), attr_lit(None if upd[2] is None else to_vector(upd[2])),
               attr_lit(upd[3])]
         e = "(let '(a0, a1) := update_metadata %s %s %s %s %s in attrs_eqb a0 %s && attrs_eqb a1 %s)" % (
-            attrs_lit(im.attrs), ul[0], ul[1], ul[2], ul[3], attrs_lit(im.attrs), attrs_lit(out.attrs))
+            attrs_before, ul[0], ul[1], ul[2], ul[3], attrs_lit(im.attrs), attrs_lit(out.attrs))
         exprs.append(e)
-        metas.append(dict(what="update_metadata", update=repr(upd), impl=repr(dict(out.attrs))[:300], **meta))
+        metas.append(dict(what="update_metadata", update=repr(upd), dropped=dropped,
+                          impl=repr(dict(out.attrs))[:300], **meta))
         ctx.count("meta")
     mism, errors, _ = run_mismatch_cases("C07d", REQ, exprs, defs=DEFS)
     ctx.corr_cases += len(exprs)
@@ -770,9 +783,14 @@ def stage_history(ctx):
         seed_img = rng.randint(0, 10 ** 9)
         import random as _r
 
+        drop_key = rng.random() < 0.5
+
         def fresh():
             im, meta = gen_image(_r.Random(seed_img))
-            return update_metadata(im, medium_index=1.0, illum_wavelen=2 * math.pi, illum_polarization=(1, 0)), meta
+            im = update_metadata(im, medium_index=1.0, illum_wavelen=2 * math.pi, illum_polarization=(1, 0))
+            if drop_key:                      # data that lacks a standard metadata key (older file, hand-built)
+                del im.attrs["noise_sd"]
+            return im, meta
         im, meta = fresh()
         nx, ny = meta["shape"]
         use_real = rng.random() < 0.4
@@ -908,6 +926,164 @@ def stage_run(ctx):
                      "or on the image it leaves behind" % metas[i]["ops"], dict(kind="corr-run", **metas[i]))
 
 
+def shared_state(res, det):
+    """names of mutable attrs (and 'values') of res that are the same object / share memory with det's"""
+    import numpy as np
+    import xarray as xr
+    out = []
+    try:
+        if np.shares_memory(np.asarray(res.values), np.asarray(det.values)):
+            out.append("values")
+    except Exception:
+        pass
+    for k, v in res.attrs.items():
+        w = det.attrs.get(k)
+        if w is None or not isinstance(v, (xr.DataArray, np.ndarray, dict, list)):
+            continue
+        if v is w:
+            out.append(k)
+        elif hasattr(v, "values") and hasattr(w, "values") and np.shares_memory(np.asarray(v.values), np.asarray(w.values)):
+            out.append(k)
+    return out
+
+
+def scribble(res):
+    """edit every mutable metadata object of a RESULT in place (relabel polarisation, overwrite arrays)"""
+    import numpy as np
+    import xarray as xr
+    n = 0
+    for k, v in list(res.attrs.items()):
+        if isinstance(v, xr.DataArray) and v.values.size and v.values.dtype.kind == "f":
+            v.values[...] = np.roll(v.values, 1) * 0.5 + 0.25
+            n += 1
+        elif isinstance(v, np.ndarray) and v.size and v.dtype.kind == "f":
+            v[...] = v[::-1] + 1.0
+            n += 1
+        elif isinstance(v, dict):
+            for vv in v.values():
+                if isinstance(vv, np.ndarray) and vv.size and vv.dtype.kind == "f":
+                    vv[...] = vv + 1.0
+                    n += 1
+    res.attrs["scribbled"] = True
+    return n
+
+
+def build_alias_detector(p):
+    """detectors that carry their optics in attrs (so that NO override is passed to the calculation)"""
+    import numpy as np
+    import xarray as xr
+    from holopy.core.metadata import data_grid, detector_points, flat, to_vector, make_subset_data
+    nx, ny = p["shape"]
+    sx, sy = p["spacing"]
+    optics = dict(medium_index=p["mi"], illum_wavelen=p["wl"], illum_polarization=tuple(p["pol"]))
+    arr = np.arange(nx * ny, dtype=float).reshape(nx, ny) - 3
+    kind = p["kind"]
+    if kind in ("image", "image-delkey", "subset"):
+        d = data_grid(arr, spacing=(sx, sy), z=p["z"], noise_sd=p["noise_sd"], **optics)
+        for k in p["missing"] if kind == "image-delkey" else []:
+            del d.attrs[k]
+        if kind == "subset":
+            d = make_subset_data(d, pixels=p["pixels"], seed=p["seed"])
+        return d
+    f = flat(data_grid(arr, spacing=(sx, sy), z=p["z"]))
+    if kind == "points":
+        d = detector_points(x=f.x.values, y=f.y.values, z=f.z.values)
+    else:  # "raw": a plain DataArray with the dims / coords of an image
+        d = xr.DataArray(arr.reshape(1, nx, ny), dims=["z", "x", "y"],
+                         coords={"z": [float(p["z"])], "x": np.arange(nx) * sx, "y": np.arange(ny) * sy})
+    have = {"medium_index": p["mi"], "illum_wavelen": p["wl"], "illum_polarization": to_vector(tuple(p["pol"])),
+            "noise_sd": p["noise_sd"]}
+    d.attrs.update({k: v for k, v in have.items() if k not in p["missing"]})     # metadata attached by hand
+    return d
+
+
+def alias_case(p):
+    """purity / aliasing predicates for calls WITHOUT optics overrides; returns list of (key, what)"""
+    import numpy as np
+    from holopy.core.metadata import update_metadata
+    from holopy.scattering import Sphere, Mie, calc_holo, calc_field, calc_intensity
+    bad = []
+    sph = Sphere(n=1.5, r=0.5, center=tuple(p["center"]))
+    th = Mie() if p["theory"] == "mie" else make_mock()(1.0, 2.0, -1.0)
+    det = build_alias_detector(p)
+    can_calc = not any(k in p["missing"] for k in ("medium_index", "illum_wavelen", "illum_polarization"))
+    calls = [("update_metadata", lambda d: update_metadata(d))]
+    if can_calc:
+        calls += [("calc_holo", lambda d: calc_holo(d, sph, theory=th)),
+                  ("calc_field", lambda d: calc_field(d, sph, theory=th)),
+                  ("calc_intensity", lambda d: calc_intensity(d, sph, theory=th))]
+    order = p["order"]
+    calls = [calls[i % len(calls)] for i in order]
+    first = {}
+    for name, fn in calls:
+        before = snap(det)
+        res = fn(det)
+        if snap(det) != before:
+            bad.append(("purity:noargs:%s" % name, "%s without metadata overrides modified the %s detector it was "
+                        "given (attrs before: %s, after: %s)" % (name, p["kind"], before[-1] and
+                                                                  [k for k, _ in before[-1]], list(det.attrs))))
+            before = snap(det)
+        if res is det:
+            bad.append(("alias:identity:%s" % name, "%s without metadata overrides returned its input object" % name))
+            continue
+        sh = shared_state(res, det)
+        if sh:
+            bad.append(("alias:shared:%s" % name, "result of %s shares mutable state %s with the detector it was "
+                        "given" % (name, sh)))
+        # a result is the caller's: editing its metadata in place must not reach the detector or later calls
+        vals = np.array(res.values, copy=True)
+        scribble(res)
+        if snap(det) != before:
+            bad.append(("alias:edit-result:%s" % name, "editing the metadata of the result of %s in place changed "
+                        "the detector" % name))
+        if name in first and not np.array_equal(first[name], vals, equal_nan=True):
+            bad.append(("history:noargs:%s" % name, "a second %s on the same detector (after the first result's "
+                        "metadata was edited in place) differs from the first" % name))
+        first.setdefault(name, vals)
+        if name != "update_metadata":
+            ref = fn(build_alias_detector(p))              # the same call on a freshly built detector
+            if not np.array_equal(np.asarray(ref.values), vals, equal_nan=True):
+                bad.append(("history:noargs:%s" % name, "%s on a detector that was used before differs from the "
+                            "result on a fresh detector" % name))
+    return bad
+
+
+def gen_alias(rng):
+    nx, ny, sx, sy = gen_layout(rng, small=True)
+    kind = rng.choice(["image", "image-delkey", "points", "raw", "subset", "points", "raw"])
+    std = ["medium_index", "illum_wavelen", "illum_polarization", "noise_sd"]
+    if kind in ("image", "subset"):
+        missing = []
+    else:
+        missing = ["noise_sd"] if rng.random() < 0.6 else [k for k in std if rng.random() < 0.4]
+    return dict(kind=kind, shape=[nx, ny], spacing=[sx * 0.4, sy * 0.4], z=rng.choice([0.0, dy(rng, -1, 1)]),
+                mi=rng.choice([1.0, 1.33]), wl=rng.choice([0.5, 0.66]), pol=rng.choice([[1, 0], [0, 1], [3, 4]]),
+                noise_sd=rng.choice([None, 0.125]), missing=missing, pixels=rng.randint(1, nx * ny),
+                seed=rng.randint(0, 99), center=[dy(rng, -1, 2), dy(rng, -1, 2), dy(rng, 4, 8)],
+                theory=rng.choice(["mock", "mock", "mie"]), order=[rng.randint(0, 3) for _ in range(rng.randint(2, 5))])
+
+
+def report_alias(ctx, p, bad):
+    for key, what in bad:
+        ctx.violation(key, what, dict(kind="alias", config=p))
+
+
+def stage_alias(ctx):
+    """calls that pass NO optics overrides (the detector carries them), on detectors with all / some / none of the
+    standard metadata keys: input untouched, result is a new object sharing no mutable state with the input,
+    in-place edits of a result never reach the detector or a later calculation"""
+    rng = ctx.subrng("alias")
+    for k in range(ctx.n(60, 500)):
+        p = gen_alias(rng)
+        ctx.count("alias:%s:%s" % (p["kind"], "missing-keys" if p["missing"] else "all-keys"))
+        ctx.nontriv(("alias", p["kind"], tuple(p["missing"]), tuple(p["order"]), tuple(p["shape"])))
+        bad = alias_case(p)
+        ctx.explored += 1 + len(p["order"])
+        report_alias(ctx, p, bad)
+        if k < 1:
+            ctx.sample(dict(alias_config=p, violations=[b[0] for b in bad]))
+
+
 def run(ctx):
     ctx.rule = ("layouts: shapes 1..9 x 1..9 (15% 1xN, 15% Nx1), 7 dyadic spacings (anisotropic 70%), z offset, "
                 "shifted origins, volumes nz<=3; detectors: grid / shifted grid / volume / explicit points (shuffled, "
@@ -915,7 +1091,9 @@ def run(ctx):
                 "pixels, sizes 1..8 incl. odd, clipped and empty); non-trivial = distinct (shape, spacing, nz) "
                 "layouts, distinct (shape, pixels, seed) subsets, non-empty crops, distinct real-theory "
                 "configurations, distinct call sequences; model [run] vs implementation on sequences of 2-5 calls "
-                "(field / subset / crop / meta / flat) on one image; single-pixel draws over 25*n seeds (coverage)")
+                "(field / subset / crop / meta / flat) on one image; single-pixel draws over 25*n seeds (coverage); "
+                "no-override calls on image / image with deleted keys / hand-attributed points / raw DataArray / subset "
+                "detectors with result metadata scribbled between calls")
     ctx.clauses_proved = [
         "flat index <-> (i,j,l) bijection with ranges for every shape (incl. 1xN, Nx1, volumes) "
         "[flat_unflat, unflat_flat, flat_index_in_range, unflat_in_range]",
@@ -947,7 +1125,10 @@ def run(ctx):
         "T-matrix: they are pointwise only by inspection; MieLens / Lens: interpolation windows depend on the point set)",
         "np.random.choice honours its contract and make_subset_data is reproducible for a given seed (incl. seed 0, "
         "after unrelated use of the global RNG); every pixel of the image can be drawn",
-        "input purity of the Python objects (deep snapshots around every call, call sequences on one detector)"]
+        "input purity of the Python objects (deep snapshots around every call, call sequences on one detector; calls "
+        "without metadata overrides on detectors with all / some / none of the standard keys; result is a new object "
+        "sharing no mutable state with the input for update_metadata / calc_*; in-place edits of a result never reach "
+        "the detector or a later calculation)"]
     ctx.trusted += [
         "oracle: scattering theory F : positions -> values, hypothesis 'pointwise' (F = map f); true by inspection "
         "for Mie/Multisphere/T-matrix kernels, sampled by stage real",
@@ -965,6 +1146,7 @@ def run(ctx):
     guarded(ctx, "real", stage_real, ctx)
     guarded(ctx, "history", stage_history, ctx)
     guarded(ctx, "run", stage_run, ctx)
+    guarded(ctx, "alias", stage_alias, ctx)
 
 
 def replay(ctx, data):
@@ -976,6 +1158,11 @@ def replay(ctx, data):
         res = real_case(d["config"])
         print("replay:", [(v, diff) for v, diff, _ in res])
         report_real(ctx, d["config"], res)
+    elif kind == "alias":
+        bad = alias_case(d["config"])
+        print("replay:", bad)
+        ctx.explored += 1
+        report_alias(ctx, d["config"], bad)
     elif kind == "subset":
         import numpy as np
         from holopy.core.metadata import data_grid, make_subset_data
